@@ -89,7 +89,6 @@ def remove_redundant_chained_calls(source: str) -> str:
         "list": {"list", "tuple", "iter"},
         "set": {"set", "list", "sorted", "tuple", "iter", "reversed"},
         "iter": {"list", "tuple", "iter"},
-        "reversed": {"list", "tuple"},
         "tuple": {"list", "tuple", "iter"},
         "sum": {"list", "tuple", "iter", "sorted", "reversed"},
     }
